@@ -13,6 +13,7 @@ From Coq Require Import String.
 From ZV Require Import Lib.Base Model.Web Proofs.Web Generated.WebPages Generated.WebSinks.
 From ZV Require Import Model.WebResp Proofs.WebResp Generated.WebRoutes.
 From ZV Require Import Model.WebJs Proofs.WebJs Model.WebUrl Proofs.WebUrl.
+From ZV Require Import Model.WebFuncs Proofs.WebFuncs Generated.WebFuncs.
 Open Scope N_scope.
 
 (** (i-a) For every line match whose fragments are sorted, non-overlapping and inside the line — whatever lies in the
@@ -221,6 +222,87 @@ Example C36_nonvacuous_fragments :
   format_line m = Ok [ {| f_pre := str "a "; f_match := str "<b>"; f_post := [] |};
                        {| f_pre := str " "; f_match := str "c"; f_post := [] |} ].
 Proof. split; [cbn; lia | vm_compute; reflexivity]. Qed.
+
+(** (v) TEMPLATE FUNCTIONS (web/server.go: Funcmap; Model/WebFuncs.v with every string index/slice as a checked operation).
+    A panic of a template function is turned into an execution error by html/template: /search answers 418 with the template
+    error instead of the page. (v-a) funcs_total: every registered function, called with values of its parameter kinds — ANY
+    bytes in the strings (invalid UTF-8 included), ANY 64-bit integers, a length limit being non-negative — returns a value of
+    its result kind: no panic for any argument. *)
+Theorem C36_funcs_total : forall name args, args_ok name args = true ->
+  exists tys r v, func_sig name = Some (tys, r) /\ apply_func name args = Some (Ok v) /\ has_type v r = true.
+Proof. exact funcs_total. Qed.
+Print Assumptions C36_funcs_total.
+
+(** (v-b) the limit IS a precondition — LimitPre / LimitPost panic for every string exactly when the limit is negative … *)
+Theorem C36_limit_panics_iff_negative : forall limit s,
+  (is_panic (f_limit_pre limit s) = true <-> (limit < 0)%Z) /\ (is_panic (f_limit_post limit s) = true <-> (limit < 0)%Z).
+Proof. intros limit s. split; [apply limit_pre_panics_iff | apply limit_post_panics_iff]. Qed.
+Print Assumptions C36_limit_panics_iff_negative.
+
+(** … which is why the call sites are part of the statement: Generated/WebFuncs.v lists every function registered in a
+    template.FuncMap literal of package web with its signature (go/ast + go/types) and every call of a non-builtin function in
+    the parse trees of web/templates.go with its literal arguments. By computation: every registered function has a model with
+    exactly that signature, every call site passes [site_ok] (a model exists, literals have the parameter's kind, a limit is a
+    literal >= 0). A function added to the FuncMap, a changed signature, a call with a computed or negative limit breaks this. *)
+Theorem C36_funcs_modelled_partial :
+  forallb decl_ok funcmap = true /\ forallb site_ok func_calls = true /\ funcmap <> [] /\ func_calls <> [].
+Proof. vm_compute. repeat split; try reflexivity; discriminate. Qed.
+Print Assumptions C36_funcs_modelled_partial.
+
+(** (v-c) hence: at every call site of the templates, for ALL values of the data arguments (of the parameter kinds), the call
+    returns a value. PARTIAL: that the data arguments have the parameter kinds (text/template checks this at execution time
+    and answers a mismatch with an error) is not derived from the Go types of the template data; the model's functions are tied
+    to the Go closures by the correspondence (harness part F) only. *)
+Theorem C36_template_calls_total_partial : forall s, In s func_calls ->
+  forall vs tys r, func_sig (fs_func s) = Some (tys, r) -> inst (fs_args s) vs = true -> well_typed vs tys = true ->
+  exists v, apply_func (fs_func s) vs = Some (Ok v) /\ has_type v r = true.
+Proof.
+  intros s Hin. apply sites_total.
+  destruct C36_funcs_modelled_partial as [_ [Hsites _]].
+  rewrite forallb_forall in Hsites. exact (Hsites s Hin).
+Qed.
+Print Assumptions C36_template_calls_total_partial.
+
+(** (v-d) functional spec of the two excerpt functions: a string shorter than the limit is returned as it is; otherwise the
+    result is exactly [limit] bytes of the input — its suffix (LimitPre) / prefix (LimitPost) — plus the ASCII framing
+    "...(N bytes skipped)..." where N is the number of dropped bytes. Nothing else of the input and nothing not from the input. *)
+Theorem C36_limit_pre_spec : forall limit pre, (0 <= limit)%Z ->
+  exists r, f_limit_pre limit pre = Ok r /\
+    ((blen pre < limit /\ r = pre)%Z \/
+     ((limit <= blen pre)%Z /\ exists skip suf, pre = skip ++ suf /\ blen suf = limit /\ r = skipped (blen skip) ++ suf))%list.
+Proof. exact limit_pre_spec. Qed.
+Print Assumptions C36_limit_pre_spec.
+
+Theorem C36_limit_post_spec : forall limit post, (0 <= limit)%Z ->
+  exists r, f_limit_post limit post = Ok r /\
+    ((blen post < limit /\ r = post)%Z \/
+     ((limit <= blen post)%Z /\ exists p rest, post = p ++ rest /\ blen p = limit /\ r = p ++ skipped (blen rest)))%list.
+Proof. exact limit_post_spec. Qed.
+Print Assumptions C36_limit_post_spec.
+
+Example C36_nonvacuous_funcs :
+  (* 100 UTF-8 continuation bytes in front of the match: the excerpt starts inside the run, no lead byte anywhere *)
+  apply_func "LimitPre" [VInt 100; VStr (repeat 128 100 ++ str "needle")%list]
+    = Some (Ok (VStr (str "...(6 bytes skipped)..." ++ repeat 128 94 ++ str "needle")%list)) /\
+  apply_func "LimitPre" [VInt 100; VStr (repeat 128 99)] = Some (Ok (VStr (repeat 128 99))) /\
+  apply_func "LimitPost" [VInt 2; VStr [195; 169; 195; 169]] = Some (Ok (VStr ([195; 169] ++ str "...(2 bytes skipped)...")%list)) /\
+  apply_func "LimitPre" [VInt (-1); VStr []] = Some (Panic 1) /\
+  apply_func "LimitPre" [VStr []; VInt 1] = None /\
+  apply_func "Nope" [] = None /\
+  apply_func "HumanUnit" [VInt 10737418241] = Some (Ok (VStr (str "10G"))) /\
+  apply_func "HumanUnit" [VInt (-5)] = Some (Ok (VStr (str "-5"))) /\
+  apply_func "Inc" [VInt 9223372036854775807] = Some (Ok (VInt (-9223372036854775808))) /\
+  apply_func "AddLineNumbers" [VStr (str "a" ++ [10] ++ str "b" ++ [10])%list; VInt 10; VBool true]
+    = Some (Ok (VLines [(7, str "a"); (8, str "b")]%Z)) /\
+  apply_func "TrimTrailingNewline" [VStr [128; 10; 10]] = Some (Ok (VStr [128; 10])) /\
+  args_ok "LimitPre" [VInt 100; VStr (repeat 128 100)] = true /\
+  (* what the static check rejects: a negative / computed limit, an unknown function, a changed signature *)
+  site_ok {| fs_tmpl := "results"; fs_func := "LimitPre"; fs_args := [AConst (-1); AData] |} = false /\
+  site_ok {| fs_tmpl := "results"; fs_func := "LimitPre"; fs_args := [AData; AData] |} = false /\
+  site_ok {| fs_tmpl := "results"; fs_func := "Shorten"; fs_args := [AData] |} = false /\
+  decl_ok {| fd_name := "LimitPre"; fd_params := [TyInt; TyStr]; fd_results := [TyStr; TyUnknown] |} = false /\
+  decl_ok {| fd_name := "Shorten"; fd_params := [TyStr]; fd_results := [TyStr] |} = false.
+Proof. vm_compute. repeat split; reflexivity. Qed.
 
 Example C36_nonvacuous_panic_and_leak :
   (* offsets beyond the line but inside the buffer leak the following bytes; beyond the buffer they panic *)
